@@ -8,16 +8,58 @@ from pyvc.sym import Sym
 from spec import iupac
 
 META = {
-    "explanation": "the element regex literal (taken from the AST of _get_formula_parser) is proved to accept exactly the 118 symbols and to tokenise deterministically (one alternative per leading capital, greedy optional class); the parse actions multiplyContents / sumByElement / count, _parse_stoich's mapping to atomic numbers, _get_leading_integer, _get_charge (values and every rejection class) and _formula_to_parts (prefix/suffix stripping, single charge token, slash rejection) are proved on symbolic strings/counts; formula_to_composition's hydrate accumulation and charge placement is proved modularly over those contracts at 1-3 hydrate parts; Substance/Species.from_formula delegate to it. How pyparsing combines the actions (unbounded nesting) is covered by the bounded grammar enumeration.",
+    "explanation": "the element regex literal (taken from the AST of _get_formula_parser) is proved to accept exactly the 118 symbols and to match, at a position, the longest symbol that starts there (exhaustive over capital + next character; no assumption on how the alternation is written); the parse actions multiplyContents / sumByElement / count, _parse_stoich's mapping to atomic numbers, _get_leading_integer, _get_charge (values and every rejection class) and _formula_to_parts (prefix/suffix stripping, single charge token, slash rejection) are proved on symbolic strings/counts; formula_to_composition's hydrate accumulation and charge placement is proved modularly over those contracts at 1-3 hydrate parts; Substance/Species.from_formula delegate to it. How pyparsing combines the actions (unbounded nesting) is covered by the bounded grammar enumeration.",
     "trusted_base": ["z3 sequence/regex theory and cvc5 --strings-exp", "A9 models of str.split/count/startswith/endswith/int()/re.findall('^\\\\d+')", "pyparsing engine (5.5: not assumed in any proof; bounded stand-in)", "spec/iupac.py symbol table"],
-    "not_decided": ["unbounded nesting through pyparsing (engine outside the contract): bounded stand-in depth <= 3",
+    "not_decided": ["unbounded nesting through pyparsing (engine outside the contract): bounded stand-in depth <= 3, one written example at depth 20",
+                    "nesting deeper than the interpreter's recursion limit allows (observed on the pinned tree: 64 levels at the default limit of 1000 from a shallow caller) is refused with RecursionError - a refusal, not a mis-read; A4 of DESIGN 2.5 (no recursion limit) puts it outside what is decided here; no obligation",
                     "strings outside the three listed rejection classes that int()/re accept leniently (observed on the pinned tree: 'H+1_0' -> charge 10, 'H+ 2', Arabic-Indic digits, 'Na Cl', 'H2(g)O'): the property neither demands acceptance nor refusal; no obligation",
                     "attachment of the parse actions and the pairing of the bracket tokens inside the pyparsing grammar object: only through the hand-written examples (data) and the bounded enumeration"],
     "assumptions": ["charge strings range over the alphabet [0-9+-] (the grammar's alphabet); int() on other Unicode digit/space forms is not modelled",
                     "\\d in the regexes is modelled as ASCII 0-9 (CPython's str patterns also match other Unicode decimal digits)",
-                    "_get_charge is quantified over strings of at most 4 characters (charges up to 999); _formula_to_parts over strings of at most 10 characters: the code has no length-dependent branch"],
+                    "_get_charge is quantified over strings of at most 4 characters (charges up to 999; longer charges: data examples up to 400 digits); _formula_to_parts over strings of at most 10 characters: the code has no length-dependent branch",
+                    "_formula_to_parts is generic in its two lists: proved for the lists (), ('.',), ('a-',) and (thorough tier) ('.', 'alpha-'), where 'a-' stands for the 24 greek prefixes that end in the character that is also a charge mark",
+                    "the prefixes the public function knows are the 24 greek letter names + '-' and the radical dot '.', written out in this file (GREEK24)"],
 }
 PA = "chempy.util.parsing"
+# the greek prefixes of the supported notation, written out here (the 24 letters of the greek alphabet, alpha ... omega, as English words), NOT read from chempy
+GREEK24 = ("alpha", "beta", "gamma", "delta", "epsilon", "zeta", "eta", "theta", "iota", "kappa", "lambda", "mu",
+           "nu", "xi", "omicron", "pi", "rho", "sigma", "tau", "upsilon", "phi", "chi", "psi", "omega")
+KNOWN_PREFIXES = frozenset(g + "-" for g in GREEK24) | {"."}      # 'alpha-' ... 'omega-' and the radical dot
+
+
+class _Raised:
+    """what a data harness records when the code under test raises: equal to nothing, so the obligation that looks at it fails (a data harness must
+    not let an exception of chempy escape: that would be a checker error instead of a reported violation)"""
+    def __init__(self, ex):
+        self.ex = ex
+
+    def __repr__(self):
+        return "<raised %r>" % (self.ex,)
+
+    def __eq__(self, other):
+        return False
+
+    def __ne__(self, other):
+        return True
+    __hash__ = None
+
+    def __getattr__(self, name):          # .composition / .phase_idx / .name / .charge of a Substance that was never made
+        if name.startswith("__"):
+            raise AttributeError(name)
+        return self
+
+    def __getitem__(self, key):
+        return self
+
+    def __setitem__(self, key, value):
+        pass
+
+
+def _try(fn, *a, **kw):
+    try:
+        return fn(*a, **kw)
+    except Exception as ex:
+        return _Raised(ex)
 
 
 def element_regex_literal():
@@ -43,7 +85,7 @@ def element_regex_literal():
 @harness("C01", "element_regex", functions=[PA + ":_get_formula_parser"], samples=0)
 def _(v):
     import z3
-    from pyvc.regex import to_z3_re, alternatives
+    from pyvc.regex import to_z3_re
     pat = element_regex_literal()
     R = to_z3_re(pat)
     syms = [s for _, s, _, _ in iupac.TABLE]
@@ -52,23 +94,37 @@ def _(v):
     v.prove("language_subset_of_symbols", SP.implies(Sym(z3.InRe(s.e, R)), is_symbol))
     v.prove("symbols_subset_of_language", SP.implies(is_symbol, Sym(z3.InRe(s.e, R))))
     v.prove("canary_not_everything", SP.neg(Sym(z3.InRe(z3.StringVal("Xx"), R))))
-    # tokenisation is deterministic and greedy: one alternative per leading capital letter, each alternative is
-    # <capital><optional or mandatory single class>, so the match at a position is the longest symbol starting there
-    alts = alternatives(pat)
-    firsts = [a[0] for a in alts]
-    v.prove("alternatives_start_with_distinct_capitals", all(f is not None and f.isupper() for f in firsts) and len(set(firsts)) == len(firsts))
-    shapes_ok = True
-    for first, idx, rz, items in alts:
-        tail = items[1:]
-        if len(tail) > 1:
-            shapes_ok = False
-        for op, av in tail:
-            name = str(op)
-            if name not in ("IN", "LITERAL", "MAX_REPEAT"):
-                shapes_ok = False
-            if name == "MAX_REPEAT" and not (av[0] == 0 and av[1] == 1 and len(list(av[2])) == 1):
-                shapes_ok = False
-    v.prove("alternatives_are_capital_plus_one_greedy_class", shapes_ok)
+    # tokenisation: at every position the match (re.match semantics = ordered choice, what pyparsing's Regex does) is the LONGEST symbol that is a
+    # prefix there, whatever the way the alternation is written (one alternative per capital with a greedy class, longest alternative first, ...).
+    # The pattern has no look-around/back-reference (to_z3_re above refuses those) and its language has just been proved to be the symbols (<= 2
+    # characters), so the outcome of a match depends on the next two characters only: the enumeration below (every capital, followed by nothing / every
+    # lower-case letter / a non-letter, each with and without further text) is exhaustive for capital-led tokens, not a sample.
+    # (The two obligation names are historical: they used to pin the shape of the alternation; the conditions are now stated on the matches.)
+    import string as _string
+    longest = max(len(x) for x in syms)
+
+    def want(text):
+        cands = [x for x in syms if text.startswith(x)]
+        return max(cands, key=len) if cands else None
+
+    def got(text):
+        m = re.match(pat, text)
+        return m.group() if m else None
+    wrong_single, wrong_double = [], []
+    for cap in _string.ascii_uppercase:
+        for nxt in ("", "2", "(", "+", ".", "A", "Z"):           # capital at the end of the token: one-letter symbol or nothing
+            for more in ("", "b", "2)"):
+                t = cap + nxt + (more if nxt else "")
+                if got(t) != want(t):
+                    wrong_single.append((t, got(t)))
+        for low in _string.ascii_lowercase:                        # capital + lower-case letter: the two-letter symbol if it is one, else the one-letter one
+            for more in ("", "a", "g", "2", "O", ")"):
+                t = cap + low + more
+                if got(t) != want(t):
+                    wrong_double.append((t, got(t)))
+    v.prove("alternatives_start_with_distinct_capitals", longest == 2 and not wrong_single, detail=repr(wrong_single[:5]))
+    v.prove("alternatives_are_capital_plus_one_greedy_class", longest == 2 and not wrong_double, detail=repr(wrong_double[:5]))
+    v.prove("nothing_but_a_capital_starts_a_match", all(got(c + "e") is None and got(c) is None for c in _string.ascii_lowercase + _string.digits + "()[]{}+-.*'@/ "))
     # consequence used by the rejection clause: a capitalised token [A-Z][a-z]* that is not a symbol is never consumed whole
     tok = v.str("tok")
     capital_token = Sym(z3.InRe(tok.e, z3.Concat(z3.Range("A", "Z"), z3.Star(z3.Range("a", "z")))))
@@ -81,7 +137,8 @@ def _(v):
     from chempy.util import parsing
     v.prove("index_plus_one_is_atomic_number", all(symbols[z - 1] == s for z, s, n, m in iupac.TABLE) and len(symbols) == 118)
     v.prove("regex_fullmatches_every_symbol", all(re.fullmatch(element_regex_literal(), s) for z, s, n, m in iupac.TABLE))
-    v.prove("parsing_uses_periodic_symbols", parsing.symbols is symbols)
+    # value equality with the specification's table (an equal copy of the tuple is as good as the same object)
+    v.prove("parsing_uses_periodic_symbols", list(parsing.symbols) == [s for z, s, n, m in iupac.TABLE])
 
 
 def _parser_closures(v):
@@ -121,11 +178,21 @@ def _mc(n):
         sub = [[nm, c] for nm, c in zip(names, counts)]
         t = _Tok([], subgroup=sub, mult=mult)
         r = v.call(clos["multiplyContents"], [t])
-        v.prove("returns_subgroup_same_length", r is sub and len(r) == n)
+        # stated on the VALUE the action hands back to pyparsing (the tokens that replace the group), not on how it is made: the real code multiplies
+        # the sub-group in place and returns that very list; a fresh list with the same entries would be just as right
+        if r is None or len(r) != n:
+            v.prove("returns_subgroup_same_length", False, detail=repr(r))
+            return
+        v.prove("returns_subgroup_same_length", len(r) == n)
         v.prove("names_unchanged", [x[0] for x in r] == names)
         v.prove("every_count_multiplied", SP.conj([x[1] == c * mult for x, c in zip(r, counts)]))
+        # a plain element is handed on as it is: the action returns nothing (pyparsing then keeps the tokens) or the same [symbol, count] again
         t2 = _Tok(["H", counts[0]], subgroup=None, mult=mult)
-        v.prove("plain_element_untouched", v.call(clos["multiplyContents"], [t2]) is None and t2[1] is counts[0])
+        r2 = v.call(clos["multiplyContents"], [t2])
+        eff = t2 if r2 is None else r2
+        if len(eff) == 1 and not isinstance(eff[0], str):
+            eff = eff[0]
+        v.prove("plain_element_untouched", SP.conj([len(eff) == 2, len(t2) == 2, eff[0] == "H", eff[1] == counts[0], t2[0] == "H", t2[1] == counts[0]]) if len(eff) == 2 and len(t2) == 2 else False)
     return _
 
 
@@ -141,8 +208,14 @@ def _sbe(names):
         toks = [[nm, c] for nm, c in zip(names, counts)]
         r = v.call(clos["sumByElement"], toks)
         if len(set(names)) == len(names):
-            v.prove("no_duplicates_returns_none", r is None)
+            # nothing to add up: the action returns nothing (pyparsing keeps the tokens as they are) or the same entries again (the name of the
+            # obligation is historical; a summed copy is as good as None)
+            eff = toks if r is None else list(r)
+            v.prove("no_duplicates_returns_none", SP.conj([[x[0] for x in eff] == names] + [x[1] == c for x, c in zip(eff, counts)] + [[x[0] for x in toks] == names] + [x[1] == c for x, c in zip(toks, counts)]))
         else:
+            if r is None:
+                v.prove("one_entry_per_element", False, detail="duplicates left unsummed")
+                return
             got = {x[0]: x[1] for x in r}
             v.prove("one_entry_per_element", sorted(got) == sorted(set(names)) and len(list(r)) == len(set(names)))
             v.prove("per_element_sum", SP.conj([got[nm] == sum(c for n2, c in zip(names, counts) if n2 == nm) for nm in set(names)]))
@@ -158,9 +231,13 @@ def _(v):
     from chempy.util.parsing import _get_formula_parser
     import pyparsing
     p = _get_formula_parser()
-    v.prove("empty_count_is_one", p.parseString("H", parseAll=True)[0][1] == 1)
-    v.prove("integer_count", p.parseString("H12", parseAll=True)[0][1] == 12.0)
-    v.prove("decimal_count", p.parseString("H2.5", parseAll=True)[0][1] == 2.5)
+
+    def first_count(text):
+        parse = getattr(p, "parse_string", None)     # pyparsing 3.x spelling; parseString/parseAll is the deprecated older one
+        return (parse(text, parse_all=True) if parse is not None else p.parseString(text, parseAll=True))[0][1]
+    v.prove("empty_count_is_one", _try(first_count, "H") == 1)
+    v.prove("integer_count", _try(first_count, "H12") == 12.0)
+    v.prove("decimal_count", _try(first_count, "H2.5") == 2.5)
 
 
 @harness("C01", "_get_leading_integer", functions=[PA + ":_get_leading_integer"], samples=40)
@@ -178,6 +255,12 @@ def _(v):
                 SP.implies(SP.conj([starts, Sym(z3.InRe(d.e, z3.Plus(digit))), s == Sym(z3.Concat(d.e, to_e(rest))), SP.neg(Sym(z3.InRe(z3.SubString(to_e(rest), 0, 1), digit)))]),
                            m == Sym(z3.StrToInt(d.e))))
         v.prove("rest_is_suffix_without_leading_digit", SP.conj([Sym(z3.SuffixOf(to_e(rest), s.e)), SP.neg(Sym(z3.InRe(z3.SubString(to_e(rest), 0, 1), digit)))]))
+        # WHERE the cut is (the two obligations above take `rest` as the implementation gives it: alone they would let ('2H2O' -> anything, 'O') pass):
+        # what was taken off the front is a non-empty run of digits - with `rest` not starting with a digit that makes it THE maximal leading run -
+        # and the count is its decimal value
+        cut = z3.SubString(s.e, 0, z3.Length(s.e) - z3.Length(to_e(rest)))
+        v.prove("what_is_cut_off_is_the_leading_digit_run", SP.implies(starts, Sym(z3.InRe(cut, z3.Plus(digit)))))
+        v.prove("count_is_the_value_of_what_is_cut_off", SP.implies(starts, m == Sym(z3.StrToInt(cut))))
     else:
         mm = re.match(r"\d+", s)
         v.prove("native", (m, rest) == ((int(mm.group()), s[mm.end():]) if mm else (1, s)))
@@ -209,7 +292,10 @@ def _(v):
             v.prove("minus_digits", SP.implies(SP.conj([isd, s == Sym(z3.Concat(z3.StringVal("-"), d.e))]), r == -Sym(z3.StrToInt(d.e))))
             v.prove("returns_only_sign_then_optional_digits", Sym(z3.InRe(s.e, z3.Concat(z3.Union(plus, minus), z3.Option(digits)))))
         else:
-            v.prove("raises_ValueError", out.raised(ValueError), detail=repr(out.exc))
+            # "rejected with an exception": which class is not part of the property (chempy itself uses ValueError here and pyparsing.ParseException for the
+            # other rejection classes), so any exception of the program counts - the obligation name is historical. What keeps this from being empty is
+            # the next obligation: a refusal (for whatever reason, a crash included) of a well-formed charge string is reported there.
+            v.prove("raises_ValueError", out.raised(Exception), detail=repr(out.exc))
             v.prove("rejected_only_if_not_sign_then_digits", SP.neg(Sym(z3.InRe(s.e, z3.Concat(z3.Union(plus, minus), z3.Option(digits))))))
     else:
         m = re.fullmatch(r"([+-])(\d*)", s)
@@ -217,7 +303,7 @@ def _(v):
             exp = (1 if m.group(1) == "+" else -1) * int(m.group(2) or 1)
             v.prove("native_value", out.returned and out.value == exp, detail="%r -> %r" % (s, out.value if out.returned else out.exc))
         else:
-            v.prove("native_rejects", out.raised(ValueError), detail="%r -> %r" % (s, out.value if out.returned else out.exc))
+            v.prove("native_rejects", out.raised(Exception), detail="%r -> %r" % (s, out.value if out.returned else out.exc))
 
 
 def _twice(e, ch):
@@ -233,8 +319,8 @@ def _bad_marks(body):
     return z3.Or(z3.Contains(body, z3.StringVal("/")), _twice(body, "+"), z3.And(z3.Not(z3.Contains(body, z3.StringVal("+"))), _twice(body, "-")))
 
 
-def _parts(prefixes, suffixes, tier="quick"):
-    tag = "p%d_s%d" % (len(prefixes), len(suffixes))
+def _parts(prefixes, suffixes, tier="quick", tag=None):
+    tag = tag or "p%d_s%d" % (len(prefixes), len(suffixes))
 
     @harness("C01", "_formula_to_parts." + tag, functions=[PA + ":_formula_to_parts"], kind="shape-bounded", samples=60, max_paths=400, tier=tier)
     def _(v):
@@ -260,7 +346,7 @@ def _parts(prefixes, suffixes, tier="quick"):
                     ds.append(sfx); body = body[:-len(sfx)]
             bad = "/" in body or body.count("+") > 1 or ("+" not in body and body.count("-") > 1)
             if bad:
-                v.prove("native_rejects", out.raised(ValueError), detail=repr((f, out.value if out.returned else out.exc)))
+                v.prove("native_rejects", out.raised(Exception), detail=repr((f, out.value if out.returned else out.exc)))     # any exception: the class is not part of the property
             else:
                 if "+" in body:
                     i = body.index("+"); exp = [body[:i], body[i:]]
@@ -285,12 +371,17 @@ def _parts(prefixes, suffixes, tier="quick"):
             else:
                 v.prove("no_charge_means_no_sign_anywhere", SP.conj([SP.neg(Sym(z3.Contains(to_e(stoich), z3.StringVal("+")))), SP.neg(Sym(z3.Contains(to_e(stoich), z3.StringVal("-"))))]))
             v.prove("no_slash_accepted", SP.neg(Sym(z3.Contains(to_e(stoich), z3.StringVal("/")))))
-            # a listed prefix / suffix that IS there is dropped (first of each list; the later ones are tried on what is left)
-            if prefixes:
-                v.prove("leading_listed_prefix_is_dropped", SP.implies(Sym(z3.PrefixOf(z3.StringVal(prefixes[0]), f.e)), prefixes[0] in dp))
-            if suffixes:
-                room = Sym(z3.Length(f.e) >= len(pre) + len(suffixes[0]))
-                v.prove("trailing_listed_suffix_is_dropped", SP.implies(SP.conj([Sym(z3.SuffixOf(z3.StringVal(suffixes[0]), f.e)), room]), suffixes[0] in ds))
+            # a listed prefix / suffix that IS there is dropped: EVERY entry of each list, each looked for on what is left after the earlier-listed ones
+            # that were dropped (the same obligation name once per entry). Entry i of the prefixes is there when the input starts with <the dropped
+            # earlier ones><entry i>; entry j of the suffixes when the input ends with <entry j><the dropped earlier ones, the first-tried outermost> and
+            # that does not reach into the dropped prefixes.
+            for i, pfx in enumerate(prefixes):
+                before = "".join(x for x in prefixes[:i] if x in dp)
+                v.prove("leading_listed_prefix_is_dropped", SP.implies(Sym(z3.PrefixOf(z3.StringVal(before + pfx), f.e)), pfx in dp), detail="prefix %r" % (pfx,))
+            for j, sfx in enumerate(suffixes):
+                behind = "".join(x for x in reversed(suffixes[:j]) if x in ds)
+                room = Sym(z3.Length(f.e) >= len(pre) + len(sfx) + len(behind))
+                v.prove("trailing_listed_suffix_is_dropped", SP.implies(SP.conj([Sym(z3.SuffixOf(z3.StringVal(sfx + behind), f.e)), room]), sfx in ds), detail="suffix %r" % (sfx,))
             if not prefixes and not suffixes:
                 # nothing to strip: the whole input is the body; accepted only without a slash, a second '+', or (without '+') a second '-'
                 v.prove("accepted_only_without_contradictory_marks", SP.neg(Sym(_bad_marks(f.e))))
@@ -302,7 +393,17 @@ def _parts(prefixes, suffixes, tier="quick"):
                             v.prove("a_minus_charge_means_no_plus_anywhere", SP.conj([SP.neg(Sym(z3.Contains(to_e(stoich), z3.StringVal("+")))), SP.neg(Sym(z3.Contains(to_e(chg), z3.StringVal("+"))))]))
                         break
         else:
-            v.prove("raises_ValueError", out.raised(ValueError), detail=repr(out.exc))
+            # "rejected with an exception": the class is not part of the property, any exception of the program counts (the obligation name is historical).
+            # What a refusal needs is a reason, and that is the next two obligations (a crash on a well-formed input is reported there).
+            v.prove("raises_ValueError", out.raised(Exception), detail=repr(out.exc))
+            # whatever was stripped, the body is a piece of the input: an input without a slash and without any charge mark is never refused (the sharper
+            # "... or some mark twice" is true of the code but both string solvers time out on it once a prefix is stripped, as a regular-expression
+            # membership as well as with Contains/IndexOf; the exact condition is the one of p0_s0 below and, for every shape, the independent reading
+            # of the specification in the sampled runs above). Written as one membership (the input is not a string of harmless characters): the
+            # three-fold Contains form of the same statement takes the solvers four times as long.
+            allc = z3.AllChar(z3.ReSort(z3.StringSort()))
+            harmless = z3.Star(z3.Intersect(allc, z3.Complement(z3.Union(z3.Re(z3.StringVal("/")), z3.Re(z3.StringVal("+")), z3.Re(z3.StringVal("-"))))))
+            v.prove("refused_only_with_a_slash_or_a_charge_mark", SP.neg(Sym(z3.InRe(f.e, harmless))))
             if not prefixes and not suffixes:
                 # nothing to strip: the whole input is the body, and a refusal must be for one of the three documented reasons
                 v.prove("refused_only_for_contradictory_marks", Sym(_bad_marks(f.e)))
@@ -312,6 +413,9 @@ def _parts(prefixes, suffixes, tier="quick"):
 _parts((".", "alpha-"), ("(s)", "(aq)"), tier="thorough")
 _parts((), ())
 _parts((".",), ("(g)",))
+# a prefix that ends in the very character that also is a charge mark (as every greek prefix 'alpha-' ... does), short enough that prefix + stoichiometry +
+# '-' charge + suffix fit into the 10 characters ('a-H2O-(s)'): the code is generic in the two lists, 'a-' stands for the 24 listed 'xxx-'
+_parts(("a-",), ("(s)",), tag="p1_s1_dash")
 
 
 @harness("C01", "_parse_stoich.mapping", functions=[PA + ":_parse_stoich"], kind="shape-bounded", samples=0)
@@ -326,14 +430,18 @@ def _(v):
     calls = []
 
     class _FakeParser:
-        def parseString(self, s, parseAll=False):
-            calls.append((s, parseAll))
+        # both spellings of the pyparsing call (parseString/parseAll is the pre-3.0 one, deprecated in the installed 3.x in favour of parse_string/parse_all)
+        def parse_string(self, s, parse_all=False, parseAll=False):
+            calls.append((s, bool(parse_all or parseAll)))
             return [["H", ints[0] * 1.0], ["O", counts[1]], ["Og", ints[1] * 1.0], ["Fe", counts[3]]]
+        parseString = parse_string
     v.contract(parsing._get_formula_parser, "_get_formula_parser", None, lambda v_: _FakeParser())
     v.assume(SP.conj([SP.neg(counts[1] == Sym(z3.ToReal(z3.ToInt(counts[1].e)))), SP.neg(counts[3] == Sym(z3.ToReal(z3.ToInt(counts[3].e))))]))
     comp = v.call(parsing._parse_stoich, "H2O")
     v.prove("keys_are_atomic_numbers", set(comp.keys()) == {1, 8, 118, 26})
-    v.prove("integral_counts_become_ints", SP.conj([comp[1] == ints[0], comp[118] == ints[1]]))
+    # the value, and that it is handed out as an int (sort Int in the engine) although the parser delivered it as the float n.0: equality alone also holds
+    # for the float (the same is looked at natively, through the real parser, in very_long_subscripts: 'H2.0' -> 2)
+    v.prove("integral_counts_become_ints", SP.conj([comp[1] == ints[0], comp[118] == ints[1]] + [getattr(comp[k], "kind", type(comp[k]).__name__) == "int" for k in (1, 118)]))
     v.prove("fractional_counts_kept", SP.conj([comp[8] == counts[1], comp[26] == counts[3]]))
     v.prove("whole_string_must_match", calls == [("H2O", True)], detail=repr(calls))     # parseAll=True is what rejects 'H2Oxyz', 'H2O)' and 'Hx'
     v.prove("electron_is_empty", v.call(parsing._parse_stoich, "e") == {})
@@ -384,9 +492,13 @@ def _ftc(nparts, sep=".."):
         r = v.call(parsing.formula_to_composition, "whatever")
         # what is handed to the helpers: the formula as given, every known prefix, the four standard phase suffixes; only the parts AFTER the first
         # may carry a leading count; the charge token goes to _get_charge
-        v.prove("helpers_get_the_right_arguments", seen["parts"] == [("whatever", list(parsing._latex_mapping.keys()), ("(s)", "(l)", "(g)", "(aq)"))]
-                and seen["leading"] == part_strs[1:] and seen["charge"] in ([], ["+c"]) and (len(seen["charge"]) == 1) == (0 in r))
-        v.prove("known_prefixes_include_radical_and_greek", "." in parsing._latex_mapping and "alpha-" in parsing._latex_mapping and "omega-" in parsing._latex_mapping and len(parsing._latex_mapping) >= 25)
+        # (the prefixes and suffixes as SETS: the property does not say in which order they are tried; the expected prefixes are the hand-written
+        # KNOWN_PREFIXES above, not chempy's own table)
+        v.prove("helpers_get_the_right_arguments", len(seen["parts"]) == 1 and seen["parts"][0][0] == "whatever" and set(seen["parts"][0][1]) == KNOWN_PREFIXES
+                and set(seen["parts"][0][2]) == {"(s)", "(l)", "(g)", "(aq)"}
+                and seen["leading"] == part_strs[1:] and seen["charge"] in ([], ["+c"]) and (len(seen["charge"]) == 1) == (0 in r), detail=repr(seen)[:300])
+        v.prove("known_prefixes_include_radical_and_greek", len(seen["parts"]) == 1 and set(seen["parts"][0][1]) == KNOWN_PREFIXES and len(KNOWN_PREFIXES) == 25,
+                detail=repr(sorted(set(seen["parts"][0][1]) ^ KNOWN_PREFIXES)) if seen["parts"] else "")
         for k in keys:
             present = SP.disj([comps[j][0][k] for j in range(nparts)])
             total = sum(SP.ite(comps[j][0][k], mults[j] * comps[j][1][k], 0) for j in range(nparts))
@@ -410,17 +522,27 @@ def _(v):
     from chempy.chemistry import Substance, Species
     from chempy.util.parsing import formula_to_composition
     forms = ["H2O", "Fe+3", "SO4-2(aq)", "NaCl(s)", "Na2CO3..7H2O(s)", ".NO2(g)", "alpha-FeOOH(s)", "[Fe(CN)6]-3", "CO2(aq)", "Hg(l)", "e-", "Ca2.832Fe0.6285Mg5.395(CO3)6"]
-    v.prove("Substance_composition", all(Substance.from_formula(f).composition == formula_to_composition(f) for f in forms))
-    v.prove("Species_composition", all(Species.from_formula(f).composition == formula_to_composition(f) for f in forms))
-    v.prove("Species_phase_idx", [Species.from_formula(f).phase_idx for f in ("NaCl(s)", "Hg(l)", ".NO2(g)", "CO2(aq)", "H2O")] == [1, 2, 3, 0, 0])
+    v.prove("Substance_composition", all(_try(Substance.from_formula, f).composition == _try(formula_to_composition, f) for f in forms))
+    v.prove("Species_composition", all(_try(Species.from_formula, f).composition == _try(formula_to_composition, f) for f in forms))
+    v.prove("Species_phase_idx", [_try(Species.from_formula, f).phase_idx for f in ("NaCl(s)", "Hg(l)", ".NO2(g)", "CO2(aq)", "H2O")] == [1, 2, 3, 0, 0])
 
 
 @harness("C01", "no_state_between_parses", functions=["chempy.util.parsing:formula_to_composition", "chempy.chemistry:Substance.from_formula", "chempy.chemistry:Species.from_formula"], kind="data")
 def _(v):
     """a parse depends on the formula given and on nothing that happened before: the caller may do what it likes with an earlier result
     (Substance.__init__ itself writes the `charge` keyword into the composition it is handed)"""
-    from chempy.util.parsing import formula_to_composition as ftc
-    from chempy.chemistry import Substance, Species
+    from chempy.util import parsing
+    from chempy import chemistry
+
+    # (an exception of the code under test becomes a _Raised, which fails the obligation that looks at it)
+    def ftc(*a, **kw):
+        return _try(parsing.formula_to_composition, *a, **kw)
+
+    class Substance:
+        from_formula = staticmethod(lambda *a, **kw: _try(chemistry.Substance.from_formula, *a, **kw))
+
+    class Species:
+        from_formula = staticmethod(lambda *a, **kw: _try(chemistry.Species.from_formula, *a, **kw))
     d1 = ftc("C60")
     d1[0] = 7
     d1[6] = 1
@@ -441,13 +563,17 @@ def _(v):
 
 @harness("C01", "very_long_subscripts", functions=["chempy.util.parsing:_get_formula_parser (count parse action)", "chempy.util.parsing:_parse_stoich", "chempy.util.parsing:formula_to_composition"], kind="data")
 def _(v):
-    """'unbounded length': integer subscripts and group multipliers are read exactly however many digits they have (no round trip through a
-    double), decimals stay decimals"""
+    """'unbounded length': integer subscripts, group multipliers, hydrate counts and the digits of the charge are read exactly however many digits they
+    have (no round trip through a double), decimals stay decimals"""
     from chempy.util.parsing import formula_to_composition as ftc
     n = 2 ** 53 + 1
     big = int("9" * 400)
     cases = [("H%d" % n, {1: n}), ("(H)%d" % n, {1: n}), ("H%dO%d" % (n, n + 2), {1: n, 8: n + 2}), ("(H2O)%d" % n, {1: 2 * n, 8: n}), ("H" + "9" * 400, {1: big}),
-             ("Na2CO3..%dH2O" % n, {11: 2, 6: 1, 8: 3 + n, 1: 2 * n}), ("Fe0.5O", {26: 0.5, 8: 1}), ("H02", {1: 2})]
+             ("Na2CO3..%dH2O" % n, {11: 2, 6: 1, 8: 3 + n, 1: 2 * n}), ("Fe0.5O", {26: 0.5, 8: 1}), ("H02", {1: 2}),
+             # a decimal subscript with an integral value is handed out as that integer (type looked at below), also on a group
+             ("H2.0", {1: 2}), ("(H)2.0", {1: 2}), ("H2.50", {1: 2.5}),
+             # the same for the digits of a CHARGE (the symbolic _get_charge harness stops at 4 characters): exact at any length, with suffix, both signs
+             ("Fe+%d" % n, {26: 1, 0: n}), ("Fe-%d" % n, {26: 1, 0: -n}), ("SO4-%d(aq)" % n, {16: 1, 8: 4, 0: -n}), ("Fe+" + "9" * 400, {26: 1, 0: big}), ("Fe-" + "9" * 400, {26: 1, 0: -big})]
     bad = []
     for f, want in cases:
         try:
@@ -486,18 +612,46 @@ def _(v):
         "Hg2+2": {80: 2, 0: 2},
         "O2-": {8: 2, 0: -1},
     }
-    bad = {f: ftc(f) for f in want if ftc(f) != want[f]}
+    got = {f: _try(ftc, f) for f in want}
+    bad = {f: got[f] for f in want if got[f] != want[f]}
     v.prove("compositions_as_written", not bad, detail=repr(bad))
     refused = {}
-    for f in ("H2Oxyz", "Hx", "Xx2", "H2O)", "(H2O", "[H2O)", "{H2O]", "H2O]", "Fe+3-", "Fe+-", "Na+Cl-", "Fe/3+", "H2O++"):
+    ill_formed = ("H2Oxyz", "Hx", "Xx2", "H2O)", "(H2O", "[H2O)", "{H2O]", "H2O]", "Fe+3-", "Fe+-", "Na+Cl-", "Fe/3+", "H2O++",
+                  # a capitalised non-symbol in an inner position: inside a group, in a hydrate part, behind a prefix / before a suffix / before a charge
+                  "(Xx)2", "(H2Xx)2", "Na2Xx", "H2O..2Xx", "Xx..H2O", "alpha-Xx", "Xx(s)", "Xx+2",
+                  # unbalanced brackets: every crossed pair of the three kinds, each opener unclosed, each closer unopened, one too many, in a hydrate part
+                  "[H2O}", "(H2O]", "(H2O}", "{H2O)", "{H2O", "[H2O", "H2O}", "(H2O))", "((H2O)", "Na2CO3..7H2O)", "H2O..(H2O",
+                  # contradictory charge marks with the '-' FIRST, doubled marks of either sign, also behind a prefix and before a suffix
+                  "Fe-+", "Fe-3+", "Na-Cl+", "Fe-+2", "Fe--", "Fe-2-", "O-2-", "Fe++", "Fe+3+", "Fe2/3+", "alpha-Fe-+", "Fe-+(aq)")
+    for f in ill_formed:
         try:
             refused[f] = ftc(f)
         except Exception:
             pass
     v.prove("ill_formed_strings_are_refused", not refused, detail=repr(refused))
-    sub = Substance.from_formula("Na2CO3..7H2O(s)")
+    # the public `prefixes=` argument is what decides which prefixes are read over: a custom one is dropped, and with it the standard ones are no
+    # longer known ('.NO2' then starts with a character the grammar has no token for, the '-' of 'alpha-' is a charge mark like the last one)
+    pref = []
+    for f, kw, exp in (("x-Fe", dict(prefixes=("x-",)), {26: 1}), ("x-Fe+3(aq)", dict(prefixes=("x-",)), {26: 1, 0: 3}), ("x-Fe-", dict(prefixes=["x-"]), {26: 1, 0: -1}),
+                       (".NO2", dict(prefixes=()), None), ("alpha-Fe-", dict(prefixes=(".",)), None), (".NO2(g)", dict(prefixes=(".",)), {7: 1, 8: 2}),
+                       ("Fe+2(ads)", dict(suffixes=("(ads)",)), {26: 1, 0: 2}), ("x-Fe+2(ads)", dict(prefixes=("x-",), suffixes=("(ads)",)), {26: 1, 0: 2})):
+        try:
+            res = ftc(f, **kw)
+        except Exception:
+            res = None
+        if res != exp:
+            pref.append((f, kw, res))
+    v.prove("prefixes_and_suffixes_arguments_are_honoured", not pref, detail=repr(pref))        # (None = refused with whatever exception)
+    # nesting far beyond the depth (3) of the bounded enumeration, every level with its own multiplier: 2**20 water molecules
+    deep = "(" * 20 + "H2O" + ")2" * 20
+    try:
+        res = ftc(deep)
+    except Exception as ex:
+        res = repr(ex)[:80]
+    v.prove("twenty_levels_of_nesting", res == {1: 2 * 2 ** 20, 8: 2 ** 20}, detail=repr(res))
+    sub = _try(Substance.from_formula, "Na2CO3..7H2O(s)")
     v.prove("substance_carries_name_and_composition", sub.name == "Na2CO3..7H2O(s)" and sub.composition == want["Na2CO3..7H2O(s)"] and sub.charge == 0)
-    sp = [Species.from_formula("Na+(aq)", phases={"(aq)": 2}), Species.from_formula("Na+(cr)", phases=("(cr)",)), Species.from_formula("Na+(aq)", phases=("(cr)",))]
+    sp = [_try(Species.from_formula, "Na+(aq)", phases={"(aq)": 2}), _try(Species.from_formula, "Na+(cr)", phases=("(cr)",)), _try(Species.from_formula, "Na+(aq)", phases=("(cr)",))]
     v.prove("species_with_custom_phases", [x.composition for x in sp] == [{11: 1, 0: 1}] * 3 and [x.phase_idx for x in sp] == [2, 1, 0])
     # custom phase suffixes are stripped also when the phase index is given explicitly (the two optional arguments together)
     both = []
